@@ -155,6 +155,7 @@ def run(ck: Check):
     results = collect(ck, ck.n(800, 25000), 28, FIXED)
     terms = [case_term(r) for r in results]
     bad = ck.coq_eval("cur", HEADER, terms, "cur_case", "check_cur", shard=200)
+    ck.run_fixed({"inherited_context_outlives_block": "C12:inherit"})
     sigs, n_fail = {}, 0
     for r in results:
         for sig, what in oracle(r):
